@@ -366,6 +366,19 @@ def stepEv (T : Tables) (cx : Ctx) (opt : Bool) (c : Cfg) : Ev → Res
       | none => .err c (.attr "_changed")
       | some none => .ok c
       | some (some s) => .ok { c with o := { c.o with changed := some (some (s.filter fun x => !cx.removed.contains x)) } }
+  | .changedAttr =>
+      -- transaction exit: atoms whose charge / radical state differs from the snapshot join an existing pending set
+      match c.o.changed with
+      | none => .err c (.attr "_changed")
+      | some none => .ok c
+      | some (some s) =>
+          match c.o.backup with
+          | some (some bk) =>
+              let diff := (c.o.mol.atoms.filter fun p => match bk.mol.atom? p.1 with
+                | some a => a.charge != p.2.charge || a.radical != p.2.radical
+                | none => false).map (·.1)
+              .ok { c with o := { c.o with changed := some (some (unionNat s diff)) } }
+          | _ => .err c (.attr "_backup")
   | .changedNone => .ok { c with o := { c.o with changed := some none } }
   | .changedRead => match c.o.changed with
       | none => .err c (.attr "_changed")
